@@ -480,6 +480,10 @@ func (fr *Frame) exec(in ssa.Instruction) {
 		if !ok {
 			unsup("store through %T", fr.get(x.Addr))
 		}
+		if s.storeGuard != nil {
+			s.store(p, s.iteValue(s.storeGuard, fr.get(x.Val), s.load(p, fr.loc(in))), fr.loc(in))
+			break
+		}
 		s.store(p, fr.get(x.Val), fr.loc(in))
 	case *ssa.Convert:
 		fr.env[x] = s.convert(fr.get(x.X), x.X.Type(), x.Type(), fr.loc(in))
